@@ -371,13 +371,13 @@ PLANS["C14"] = {
     "mc": [
         {"module": "MCWrap", "properties": ["RenderPure"], "run_opts": {"every": True},
          "quick": _wmc("c1", '{"core"}', '{"text", "md", "html"}', 2, 3, '{"text", "md", "html", "csv"}'),
-         "thorough": _wmc("c1", '{"core", "texttable"}', ALLFMT, 2, 3)},
+         "thorough": _wmc("c1", '{"core", "texttable"}', ALLFMT, 2, 4)},
         {"module": "MCWrap", "properties": ["RenderPure"], "run_opts": {"every": True},
          "quick": _wmc("c3", '{"core", "markdown"}', '{"text", "md"}', 2, 3, '{"text", "md", "json"}'),
          "thorough": _wmc("c3", '{"core", "markdown"}', ALLFMT, 2, 3)},
     ],
     "random": [{"gen": gens.gen_repeat}],
-    "min_scenarios": {"quick": 1000, "thorough": 20000},
+    "min_scenarios": {"quick": 1000, "thorough": 10000},
     "assumptions": [
         "no user callbacks are registered (the statement excludes callbacks that fail or mutate)",
         "first-output identity is kept by the driver per (content version, format, decoration, html options)",
